@@ -761,3 +761,25 @@ def run(idx, rep, tier):
     _c05r5(k)
     for o in rep.obligations[_before:]:
         o.rule = 'C20.R10'
+    # C20.R11: shared rule
+    from .c05 import r6 as _c05r6
+    rep.rule('C20.R11', 'certificate restrictions (= C05.R6 option tables): a certificate without any option or extension is still a certificate - its (empty) permit-* set applies, it is not mistaken for "no certificate presented"')
+    _before = len(rep.obligations)
+    _c05r6(k)
+    _kept = [o for o in rep.obligations[_before:] if 'certificate' in o.key or 'cert' in o.key]
+    del rep.obligations[_before:]
+    rep.obligations.extend(_kept)
+    rep.floor('C20.R11', 'shared rows', len(_kept), 1)
+    for o in rep.obligations[_before:]:
+        o.rule = 'C20.R11'
+    # C20.R12: shared rule
+    from .c09 import r1 as _c09r1
+    rep.rule('C20.R12', 'a pending channel open is completed with an error when its connection goes away (= C09.R1 open waiter clause): the forwarder waiting for it sees ChannelOpenError and closes the accepted socket')
+    _before = len(rep.obligations)
+    _c09r1(k)
+    _kept = [o for o in rep.obligations[_before:] if 'waiter' in o.key or 'open' in o.key]
+    del rep.obligations[_before:]
+    rep.obligations.extend(_kept)
+    rep.floor('C20.R12', 'shared rows', len(_kept), 1)
+    for o in rep.obligations[_before:]:
+        o.rule = 'C20.R12'
